@@ -94,12 +94,24 @@ def run(tier, seed):
             nd, kind = histgen.mutate(rng, cur[p])
             if muts and kind not in muts:
                 nd, kind = histgen.mutate(rng, cur[p])
-            if nd.broken:
+            if nd.broken and rng.random() < 0.5:
                 nd.broken = False; kind = "resend"
+            # (otherwise the document is sent in a state that does not parse - a buffer change without a new
+            # definitions version: what is memoised for it must still be judged against its current text)
             cur[p] = nd
             script.append(("analyze", p, nd.render()[0]))
             kinds.append(kind)
-        if any(k.startswith("openclose") or k in ("remove_fixture", "toggle_import") for k in kinds):
+        # the last edit of some histories leaves a document that IMPORTS fixtures in a state that does not parse:
+        # no analysis follows, so whatever was memoised for it before is now held against a different text
+        importing = [q for q in paths if any(b.get("k") == "raw" and "import" in b.get("text", "") for b in cur[q].blocks)]
+        if importing and rng.random() < 0.4:
+            import copy
+            q = rng.choice(importing)
+            nd = copy.deepcopy(cur[q]); nd.broken = True
+            cur[q] = nd
+            script.append(("analyze", q, nd.render()[0]))
+            kinds.append("break-importer-last")
+        if any(k.startswith("openclose") or k in ("remove_fixture", "toggle_import", "break-importer-last") for k in kinds):
             r.nontrivial.add(tuple(kinds))
         r.stats.setdefault("steps", {})
         for k in kinds:
